@@ -64,13 +64,17 @@ def _replace_strongly_coupled(
                 disc_merged = DummyDiscipline(str(uuid.uuid4()))
                 for disc in group:
                     disciplines_with_group.remove(disc)
-                    # The strong couplings are not real dependencies of the MDA for
-                    # derivatives computation.
-                    disc_merged.io.input_grammar.update_from_names(
-                        set(disc.io.input_grammar) - strong_c
-                    )
                     disc_merged.io.output_grammar.update_from_names(
                         disc.io.output_grammar
+                    )
+
+                # The strong couplings computed by the group are not real dependencies
+                # of the MDA for derivatives computation,
+                # contrary to the strong couplings computed by another group.
+                group_strong_c = strong_c.intersection(disc_merged.io.output_grammar)
+                for disc in group:
+                    disc_merged.io.input_grammar.update_from_names(
+                        set(disc.io.input_grammar) - group_strong_c
                     )
 
                 all_disc_with_red.append(disc_merged)
@@ -121,11 +125,14 @@ def traverse_add_diff_io_mda(
     )
 
     # The sub MDAs where the strong couplings are handled here.
-    strong_couplings = coupling_structure.strong_couplings
     for group, disc_reduced in zip(strong_groups, reduced_disciplines):
         if disc_reduced in diff_ios_merged:
             diff_red_in = set(diff_ios_merged[disc_reduced][0])
             diff_red_out = set(diff_ios_merged[disc_reduced][1])
+            # The strong couplings computed by the group.
+            strong_couplings = set(coupling_structure.strong_couplings).intersection(
+                disc_reduced.io.output_grammar
+            )
 
             for disc in group:
                 # There is a need to differentiate with respect to all the inputs of
